@@ -66,6 +66,11 @@ func c03Body(c EngineCfg, id string, variant int) *quickfix.Message {
 	if c.BeginString >= "FIX.4.2" {
 		set(60, "20000101-00:00:00")
 	}
+	if id[len(id)-1] == '7' || id[len(id)-1] == '2' {
+		// RawData with its length field: the data may contain the field delimiter
+		set(95, "5")
+		set(96, "ab\x01cd")
+	}
 	switch variant {
 	case 1: // flat group
 		g := quickfix.NewRepeatingGroup(quickfix.Tag(78), quickfix.GroupTemplate{quickfix.GroupElement(79), quickfix.GroupElement(80)})
